@@ -35,6 +35,7 @@ BOUNDS_TBL = {
     "envelope": (4, 5),
     "confusable": (None, None),
     "recipient-keys": (None, None),
+    "whole": (2, 3),
 }
 BOUNDS = {"quick": "deviation bounds per node scenario: " + ", ".join(f"{k}={'full' if v[0] is None else v[0]}" for k, v in BOUNDS_TBL.items()),
           "thorough": "deviation bounds per node scenario: " + ", ".join(f"{k}={'full' if v[1] is None else v[1]}" for k, v in BOUNDS_TBL.items())}
